@@ -151,10 +151,8 @@ theorem request_answered (m : Mode) (hs : Dongle.Hashes) (j : Json) (w : World)
     (hconf : deviceConforms w.script (handleRequest m hs j w).evs = true) :
     ∃ r, (handleRequest m hs j w).val = .ok r ∧ isReply r = true ∧
       (handleRequest m hs j w).w.commIssue = false := by
-  have h := handleRequest_safe m hs j hb w hci hconf
-  cases hv : (handleRequest m hs j w).val with
-  | ok r => exact ⟨r, rfl, handleRequest_reply_wellformed m hs j w r hv, h.1⟩
-  | error e => rw [hv] at h; exact h.2.elim
+  obtain ⟨h1, r, h2, _⟩ := handleRequest_top (lf := false) m hs j hb w hci (by rw [deviceOk_false]; exact hconf)
+  exact ⟨r, h2, handleRequest_reply_wellformed m hs j w r h2, h1 rfl⟩
 
 /-- **C03 for one line**: exactly one reply is produced, it is a JSON object with an integer
     errorcode, no exception left the handler and the server goes on. -/
@@ -163,11 +161,9 @@ theorem line_answered (m : Mode) (hs : Dongle.Hashes) (p : Parsed) (w : World)
     (hconf : deviceConforms w.script (handleLine m hs p w).evs = true) :
     ∃ lo, (handleLine m hs p w).val = .ok lo ∧ lo.exc = none ∧ isReply lo.reply = true ∧
       lo.shutdown = false ∧ (handleLine m hs p w).w.commIssue = false := by
-  have h := handleLine_safe m hs p (fun r => isReply r = true) (handleRequest_reply_wellformed m hs)
-    (isReply_errReply _) hb w hci hconf
-  cases hv : (handleLine m hs p w).val with
-  | ok lo => rw [hv] at h; exact ⟨lo, rfl, h.2.1, h.2.2.1, h.2.2.2, h.1⟩
-  | error e => rw [hv] at h; exact h.2.elim
+  obtain ⟨h1, lo, h2, h3⟩ := handleLine_top (lf := false) m hs p (fun r => isReply r = true)
+    (handleRequest_reply_wellformed m hs) (isReply_errReply _) hb w hci (by rw [deviceOk_false]; exact hconf)
+  exact ⟨lo, h2, h3.1, h3.2.1, h3.2.2, h1 rfl⟩
 
 /-- **C03 over a manager lifetime**: any sequence of request lines, in any order — every line
     gets exactly one well-formed reply and the manager is still serving after the last one, as
@@ -177,11 +173,9 @@ theorem histories_answered (m : Mode) (hs : Dongle.Hashes) (ps : List Parsed) (w
     (hconf : deviceConforms w.script (serve m hs ps w).evs = true) :
     ∃ los, (serve m hs ps w).val = .ok los ∧ los.length = ps.length ∧
       ∀ lo ∈ los, lo.exc = none ∧ isReply lo.reply = true ∧ lo.shutdown = false := by
-  have h := serve_safe m hs (fun r => isReply r = true) (handleRequest_reply_wellformed m hs)
-    (isReply_errReply _) ps hb w hci hconf
-  cases hv : (serve m hs ps w).val with
-  | ok los => rw [hv] at h; exact ⟨los, rfl, h.2.1, h.2.2⟩
-  | error e => rw [hv] at h; exact h.2.elim
+  obtain ⟨_, los, h2, h3⟩ := serve_top m hs (fun r => isReply r = true) (handleRequest_reply_wellformed m hs)
+    (isReply_errReply _) ps hb w hci (by rw [deviceOk_false]; exact hconf)
+  exact ⟨los, h2, h3.1, h3.2⟩
 
 /-- the model's own observation of a line always satisfies the oracle `Spec.c03` that the
     check evaluates on the implementation's observations -/
